@@ -148,4 +148,20 @@ theorem c14_eq_every_history_lines (f : Text → Text) (a b : Src) (h : a.eqv b 
     obtain ⟨rb, b1, b2⟩ := history_map_lname b hkb hnb σb hcb hmb hsb (by rw [← hs]; exact hs1) hs2b callsB kb h2
     exact ⟨ra, rb, a1, b1, fun sma smb ea eb L hL => by rw [a2 sma ea L hL, b2 smb eb L hL, hs]⟩
 
+/-! ## the boundary: which call filled a cache shows in the representation (known finding K3) -/
+
+/-- `CachedSource(SourceMapSource("a", "f"))` with attached map `AAAA`, source `x`, sourceRoot `r` -/
+def k3Witness : Src := .cached 0 (.sms [97] [102] ⟨[65, 65, 65, 65], [[120]], [], [], none, some [114], none⟩ none none false)
+
+/-- **"equal values answer alike whatever was observed before" fails at the level of representation** (known finding K3): on
+`k3Witness`, `map()` on the cold cache returns the attached map verbatim (source `x`, sourceRoot `r`), while `map()` after a
+`stream_chunks` returns the map re-encoded from the streamed chunks (source `r/x`, no sourceRoot) — two different SourceMap values
+that resolve every position alike (file `r/x`, line 1, column 0): the attribution statements of `c14_eq_every_history` hold, equality
+of the returned values does not. -/
+theorem c14_k3_witness :
+    ((k3Witness.map ⟨true, false⟩ []).1.map fun m => (m.mappings, m.sources, m.sourceRoot)) = some ([65, 65, 65, 65], [[120]], some [114])
+    ∧ ((k3Witness.map ⟨true, false⟩ (k3Witness.stream ⟨true, false⟩ []).2).1.map fun m => (m.mappings, m.sources, m.sourceRoot))
+        = some ([65, 65, 65, 65], [[114, 47, 120]], none) := by
+  refine ⟨by decide +kernel, by decide +kernel⟩
+
 end Rs
